@@ -143,6 +143,8 @@ static void run() {
       stack.push_back(std::make_shared<UnionArray8_64>(noid, noparams, t, i, cs)); }
     else if (c == "view") { int64_t a = nint(), b = nint(); ContentPtr x = pop(); stack.push_back(x.get()->getitem_range_nowrap(a, b)); }
     else if (c == "getitem") { int64_t k = nint(); Slice sl; for (int64_t i = 0; i < k; i++) sl.append(sliceitem()); sl.become_sealed(); ContentPtr x = pop(); stack.push_back(x.get()->getitem(sl)); }
+    else if (c == "getitem2") { int64_t k = nint(); Slice sl; for (int64_t i = 0; i < k; i++) sl.append(sliceitem()); sl.become_sealed(); ContentPtr y = pop(); ContentPtr x = pop();
+      ContentPtr first = x.get()->getitem(sl); (void)first; stack.push_back(y.get()->getitem(sl)); }      // the same Slice object applied twice: it belongs to the caller
     else if (c == "maskof") { ContentPtr x = pop(); std::shared_ptr<Index8> m;
       if (IndexedOptionArray64* r = dynamic_cast<IndexedOptionArray64*>(x.get())) m = std::make_shared<Index8>(r->bytemask());
       else if (IndexedOptionArray32* r = dynamic_cast<IndexedOptionArray32*>(x.get())) m = std::make_shared<Index8>(r->bytemask());
